@@ -58,12 +58,47 @@ class Engine(ExprMixin, ExprMixin2, StmtMixin, LoopMixin, CallMixin, CompMixin, 
         self.private_pred = None
         self.back_edge_hook = None
         self.unannotated_loops = []
+        self.inline_depth = 0
+        self.auto_fields = []
+        self.inlined = []
         # repo classes that get __iter__ from collections.abc.Sequence (index 0..len-1 through __getitem__): class -> backing list field
         self.sequence_backing = {"fickle.Stack": "_stack", "fickle.StackedPickle": "pickled"}
         self._spec_mod = None
         self.enums = {}            # enum class -> member names (closed world)
         self.heap_axioms = []      # callables(engine, state) -> [z3 facts about the initial heap]
+        self.auto_declare_fields()
         self.ast_field_names = {f for fs in repo.live["ast_fields"].values() for f in fs} | {"lineno", "col_offset", "kind"}
+
+    def auto_declare_fields(self):
+        """fields a class assigns as `self.X = ...` in its own methods exist on its instances: declare those the sidecar does not type
+        (annotation-derived type where it is plain, else `val`), so that new fields in changed code are not mistaken for missing attributes"""
+        ann_map = {"str": "str", "int": "int", "bool": "bool", "bytes": "bytes"}
+        for cname, cdef in self.repo.classes_src.items():
+            for fn in [n for n in cdef.body if isinstance(n, ast.FunctionDef)]:
+                if not fn.args.args or fn.args.args[0].arg != "self":
+                    continue
+                for n in ast.walk(fn):
+                    tgt, ann = None, None
+                    if isinstance(n, ast.AnnAssign):
+                        tgt, ann = n.target, ast.unparse(n.annotation)
+                    elif isinstance(n, ast.Assign) and len(n.targets) == 1:
+                        tgt = n.targets[0]
+                    if isinstance(tgt, ast.Attribute) and isinstance(tgt.value, ast.Name) and tgt.value.id == "self":
+                        if self.field_type(cname, tgt.attr) is not None:
+                            continue
+                        ty = "val"
+                        if ann:
+                            head = ann.split("[")[0].strip()
+                            if head in ("Set", "set"):
+                                ty = "set"
+                            elif head in ("Dict", "dict"):
+                                ty = "dict"
+                            elif head in ("List", "list"):
+                                ty = "list[val]"
+                            elif ann in ann_map:
+                                ty = ann_map[ann]
+                        self.fields.setdefault(cname, {})[tgt.attr] = ty
+                        self.auto_fields.append((cname, tgt.attr, ty))
 
     # ---- verifying one function -----------------------------------------------------------------------------------------
     def resolve_fn(self, c):
